@@ -331,7 +331,7 @@ def c18(tier, seed):
     return finish(prop, tier, seed, "exploration", v, cases, t0,
                   "a case = one option setting (purge_delay in {-1,0,5,10,100}, decommit/reset, arena multiplier) x one scenario (free whole pages / whole segments / everything of a 290 MiB working set); "
                   "the virtual clock (wrapped clock_gettime) is advanced far beyond the delay while ordinary alloc/free activity and non-forced mi_collect run; committed bytes = ledger pages in state RW "
-                  "that mincore reports resident; the bytes a forced collect would return are the yardstick; violation = more than 30% (45% for the page scenario) of them still committed, or any purge "
+                  "that mincore reports resident; the bytes a forced collect would return are the yardstick; violation = more than 35% (page scenario: 90%, a smoke test; page-level purging is judged exactly by the holes and trickle scenarios) of them still committed, or any purge "
                   "call with delay -1; non-trivial = peak committed >= 64 MiB measured; distinct = (variant, scenario, config, seed). "
                   "Exact scenarios: 'arenas' = huge blocks (a segment each) freed in random order with random virtual-time gaps into 1..7 arenas over 2..4 rounds, then only activity that frees no segment "
                   "and non-forced collects: every freed range must have 0 committed resident bytes after (4 + 2 x arenas) arena delays; 'trickle' = pages inside a live segment are freed and afterwards "
